@@ -3,7 +3,7 @@
    NewSizedBuffer(size) is empty with capacity size *)
 From Coq Require Import ZArith List Lia Bool.
 Import ListNotations.
-Open Scope Z_scope.
+Local Open Scope Z_scope.
 
 Inductive out := Done (buf : list Z) | Panic.
 Definition rewrite_at (buf : list Z) (pos : Z) (p : list Z) : out :=
